@@ -237,6 +237,26 @@ func RunC16(r *core.Run) {
 	})
 	st.Exhaustive = true
 	st.Space = "every substitute/insert (all 256 byte values)/delete/transpose neighbour of every table name in lower, upper and capitalised form"
+	// C2: table names padded with a repeated byte (any value, 1..12 times, after or before)
+	st = r.Stage("repeated-byte-padding", int64(len(names))*256*12*2, func(w *core.Worker, idx int64) {
+		before := idx%2 == 1
+		x := idx / 2
+		k := int(x%12) + 1
+		x /= 12
+		c := byte(x % 256)
+		base := names[x/256]
+		pad := bytes.Repeat([]byte{c}, k)
+		var nm []byte
+		if before {
+			nm = append(append(nm, pad...), base...)
+		} else {
+			nm = append(append(nm, base...), pad...)
+		}
+		classify(w, nm, idx%5 == 0)
+		w.NontrivialEnum()
+	})
+	st.Exhaustive = true
+	st.Space = "every table name / method followed or preceded by 1..12 copies of every byte value 0..255"
 	// D: 8-bit samples of length 3 and random long names
 	r.Stage("random-names", r.Pick(2000000, 60000000), func(w *core.Worker, idx int64) {
 		rr := core.NewRand(r.Seed, 0xC16, 4, uint64(idx))
